@@ -6,3 +6,4 @@ import Tx3Proofs.C05Fee
 #print axioms Tx3.C05_stable
 #print axioms Tx3.C05_fee_written
 #print axioms Tx3.C05_fee_chain
+#print axioms Tx3.C05_fee_estimate_exact
